@@ -24,4 +24,16 @@ CHECKS = {
         assumptions=["targets are deterministic and reveal nothing but Ok/Err (the DrawTarget contract)",
                      "panics are out of scope here (C08)"],
     ),
+    "C11": dict(
+        packs=["c11"], level="other",
+        explanation="Structural necessary conditions of the raw load/store round trip, decided on the MIR of all 7 LoadStore impls and the raw iterator: "
+                    "R11.1 type-parameter dependence (store depends on the data order iff load does - exact by parametricity), R11.2 endianness pairing per "
+                    "branch of IS_ALTERNATE_ORDER incl. the RawU24 sub-range, R11.3 size_hint = (8/bpp)*len saturating-minus index for all 7 widths, "
+                    "R11.5 documented sub-byte bit position table, R11.6 iterator = load at a running index. The bit-exact store/load identity itself is not decided here.",
+        claim="Decides the structural clauses (order dependence, endianness pairing, documented bit positions, size_hint form, iterator stepping) for every raw type and both data orders; not the full bit-level round trip.",
+        note="Necessary conditions only; trusted: rustc MIR, dependence analysis (over-approximate 'uses'), decision extraction on small acyclic functions.",
+        technique="type-parameter dependence analysis + guarded origin trees (decision extraction) over MIR",
+        trusted_base=TB,
+        assumptions=["usize is 64 bit on the analysis host"],
+    ),
 }
